@@ -47,5 +47,11 @@ CHECKS = {
   text="Every sequence of <= 3 (4) blocks over 13 (16) footnote symbols and of <= 4 (6) over a 9-symbol sub-alphabet (named/numeric/duplicate/undefined/unreferenced labels, definitions inside quotes and list items, multiple and repeated references) under the four footnote_sort x footnote_transition settings is run through publish_doctree; label numbers, reference numbers and refids, back-reference lists in source order, distinct labels, kept body texts, warning counts ([ref.footnote] per duplicate and per unreferenced definition) and the top-level collection order / transition must equal a 40-line model.",
   note="Trusted: the model (numbering by first reference asserted only with footnote_sort=True; footnotes-only documents unspecified for the transition); docutils front end only.",
  ),
+ "C09": dict(
+  category="model_checking",
+  technique="bounded exhaustive enumeration of documents built from target placements x link placements, executed through the docutils pipeline against an explicit-then-slug lookup model on the names the generator wrote",
+  text="Every document with 1-2 targets of 8 kinds ((name)= and {#name} on paragraph/heading, directive :name:, heading slug, duplicate titles, mixed-case declaration, explicit name shadowing a slug) in 4 nesting contexts and one link (4 forms x existing/missing/suffixed/case-variant names, 4 contexts, before/after) or two links is rendered; each link must yield exactly one reference whose refid belongs to the node the generator attached that name to, keep explicit (nested) text, be filled with the target's title or '#name', and a missing target must give exactly one [myst.xref_missing] warning per link at the link's line.",
+  note="Trusted: the lookup model; case-variant spellings are unspecified (either resolution or one warning); duplicate explicit names not generated; docutils front end (Sphinx cross-document resolution is C12).",
+ ),
 }
 NOT_APPLICABLE = {}
